@@ -223,7 +223,7 @@ pub fn c09(cfg: &Cfg) -> i32 {
                 }
             }
         }
-        play_family(Family::W7, cfg.n(8000, 400_000), cfg.seed, w, 0, &opts, &mut mon, sink);
+        play_family(Family::W7, cfg.n(64_000, 400_000), cfg.seed, w, 0, &opts, &mut mon, sink);
         // sparse walks: the same state object line is carried on by placements WITHOUT asking anything in between;
         // only at a few random prefixes the offered list is asked and compared (whatever a state remembers from an
         // earlier question, or hands to its successors, is then many placements old)
